@@ -161,10 +161,22 @@ def stamp_from_word(interp, adt, variant, cells):
     return ('ts', '%s-minus-%d-raw-units' % (w[1], k))
 
 
+def node_as_word(interp, v, ty):
+    """`node as u64` standing in for a source that has not observed the node: with the node id in the lowest bits of the word (checked against
+    the packer's layout) that IS the word of the zero stamp of the node"""
+    if v is not None and v[0] == 'key' and v[1] == 'n' and ty == 'u64':
+        import bits_abs
+        lay = bits_abs.layout_of(interp.facts)
+        if lay is not None and lay.get('node') == 0:
+            return ('ts', 'zero')
+    return None
+
+
 def mk_interp(facts, ranks):
     it = Interp(facts, rank_order(ranks), opaque_call=ts_algebra)
     it.ext_binop = word_binop
     it.adt_hook = stamp_from_word
+    it.ext_cast = node_as_word
     return it
 
 
